@@ -10,6 +10,6 @@ ASSUMPTIONS = [
     "unwinding assertion: a run needing more decisions than the vector provides is a harness error, never a pass",
     "monitor evaluated after every scheduling step: notification sequence per execution is a prefix of [RUNNING, terminal]; record invariants (stopDate iff terminal, output iff SUCCEEDED, error/cause iff FAILED); terminal record snapshot never changes; at quiescence every started execution has exactly [RUNNING, terminal]",
 ]
-SPLIT = {"par2": [("_none", "not fa and not fb"), ("_a", "fa and not fb"), ("_b", "fb and not fa")],
+SPLIT = {"nested_par": [("_ok", "not fail"), ("_fail", "fail")], "par2": [("_none", "not fa and not fb"), ("_a", "fa and not fb"), ("_b", "fb and not fa")],
          "map_items": [("_ok", "failing == -1"), ("_fail", "failing >= 0 and n >= 1")]}
-scn.register(globals(), {"C02"}, ["seq_chain", "seq_misc", "two_execs", "start_routes", "par2", "par_pass_task", "map_items", "par3"], SPLIT)
+scn.register(globals(), {"C02"}, ["seq_chain", "seq_misc", "two_execs", "start_routes", "par2", "par_pass_task", "map_items", "par3", "par_wait_fail", "nested_par"], SPLIT)
